@@ -72,7 +72,7 @@ def run(ctx):
         for j, c in enumerate(cases):
             forms = ("function", "estimator") if j % 5 == 0 else ("function",)
             dts = ("float64", "float32") if j % 7 == 0 else ("float64",)
-            runs += ce.kc_runs(c, forms=forms, dtypes=dts)
+            runs += ce.kc_runs(c, forms=forms, dtypes=dts, beyond=(j % 5 == 1))
             runs += offdata_variants(c)
     if ctx.tier == "thorough":
         rng = np.random.RandomState(ctx.seed + 2)
